@@ -664,6 +664,19 @@ pub fn gen_c09(tier: &str, seed: u64, out: &str, mc_replay: Option<&str>, fixtur
             }
         }
     }
+    // runs of consecutive neighbours, intact and perturbed in place (swap, foreign cell, duplicate, deletion)
+    let nruns = if tier == "thorough" { 1500 } else { 240 };
+    for i in 0..nruns {
+        let cells = crate::compact::run_list(&mut rng, (i % 6) as u64);
+        let maxr = cells.iter().map(|&c| res_of(c)).max().unwrap();
+        for target in [maxr, (maxr + 1).min(29)] {
+            let total: u64 = cells.iter().map(|&c| honest_fanout(res_of(c), target)).fold(0u64, |a, b| a.saturating_add(b));
+            if total > cap { continue; }
+            t.emit(uncompact_event(&cells, target));
+            n += 1;
+        }
+        t.cut();
+    }
     let cases = if tier == "thorough" { 8000 } else { 800 };
     for i in 0..cases {
         let len = 1 + rng.below(5) as usize;
